@@ -515,7 +515,7 @@ def machines(ctx, which, examples, steps, shard):
         @initialize(n=st.one_of(st.integers(0, 40), st.integers(0, 65536)))
         def init(self, n):
             self.n = n
-            self.ref = bytes(refbyte(i) for i in range(n + 2000))
+            self.ref = bytes(refbyte(i) for i in range(n + 3200))  # frames reach up to n + 3000
             self.r = QuicStreamReceiver(stream_id=0, readable=True)
             self.m = RModel()
             self.log = []
